@@ -211,7 +211,7 @@ package table
 
 // Summarised by their inferred effects wherever they are called (nothing is assumed about their results).
 //@ func (*Reader).NewIterator
-//@   props C19 C06
+//@   props C19 C06 C07 C17
 //@   trusted
 //@ func NewReader
 //@   props C19 C06
